@@ -1,11 +1,204 @@
 import SigModel.Driver.Loop
+import SigModel.Spec.Auth
 
-/-! Driver for C01 — stub (no model yet). -/
+/-!
+Driver for C01.  Op lines are `verb k=v k=v …` (values percent-encoded); the
+implementation line is `<reply> ; S=<session table> || <oracle bits>` where the
+oracle bits (`dec`, `tokok`, `vf`) are computed by the harness with library
+primitives at execution time (signatures are randomised, keys are per run).
+
+  cfg sec=<0|1> aa=<0|1> aa.http=<0|1> aa.limit=<n>
+  backend host=<h> id=<id> url=<normalised url|%> http=<0|1> limit=<n> owner=<tenant|*>
+  tenant name=<t> key=<rsa|ecdsa|ed25519|none> fed=<0|1>
+  start
+  connect c=<n> addr=<ip>
+  disconnect c=<n>
+  hello c=<n> ver= rid= auth= params= type= url= u.*= v1= pok= t.*= rnd= b.*=
+  msg c=<n> ty=<type> shape=<undecodable|invalid|valid>
+  bye c=<n>
+-/
 namespace SigModel.Driver.C01
+open SigModel.Proto SigModel.Auth
+
+abbrev KV := List (String × String)
+
+def splitKV (tok : String) : String × String :=
+  let cs := tok.toList
+  (String.ofList (cs.takeWhile (· ≠ '=')), String.ofList ((cs.dropWhile (· ≠ '=')).drop 1))
+
+def kvs (toks : List String) : KV := toks.map splitKV
+
+def get (kv : KV) (k : String) : String := (kv.lookup k).getD ""
+def getS (kv : KV) (k : String) : String := ((kv.lookup k).bind dec).getD ""
+def getB (kv : KV) (k : String) : Bool := get kv k == "1"
+def getN (kv : KV) (k : String) : Nat := (toNat? (get kv k)).getD 0
+
+def nsPerSec : Int := 1000000000
+
+/-- `-` = claim absent, otherwise seconds relative to now -/
+def getTime (kv : KV) (k : String) : Option Int :=
+  match toInt? (get kv k) with
+  | some s => some (s * nsPerSec)
+  | none => none
+
+def parseUrl (kv : KV) (p : String) : Url :=
+  { raw := getS kv (p ++ "raw"), ok := getB kv (p ++ "ok"), scheme := getS kv (p ++ "scheme"),
+    host := getS kv (p ++ "host"), hostname := getS kv (p ++ "hostname"), port := getS kv (p ++ "port"),
+    strHost := getS kv (p ++ "s1"), strHostname := getS kv (p ++ "s2"), dotSeg := getB kv (p ++ "dot"),
+    srv := getS kv (p ++ "srv") }
+
+def parseKey (s : String) : Option KeyFam :=
+  if s == "rsa" then some .rsa else if s == "ecdsa" then some .ecdsa else if s == "ed25519" then some .ed25519 else none
+
+def parseV1 (s : String) : V1Ans :=
+  if hasPrefix "auth:" s then .auth ((dec (dropS 5 s)).getD "")
+  else if hasPrefix "error:" s then .error ((dec (dropS 6 s)).getD "")
+  else if s == "other" then .other
+  else .fail
+
+def parseResume (s : String) (decodes : Bool) : Resume :=
+  if s == "-" || s == "" then {}
+  else
+    let exact := if hasPrefix "priv:" s then toNat? (dropS 5 s) else none
+    { present := true, exact := exact, decodes := decodes }
+
+def parseHello (kv : KV) (ora : KV) : Hello :=
+  let vf := ((get ora "vf").splitOn ",").filterMap dec
+  { version := getS kv "ver",
+    resume := parseResume (get kv "rid") (getB ora "dec"),
+    hasAuth := getB kv "auth", hasParams := getB kv "params", authType := getS kv "type",
+    url := parseUrl kv "u.",
+    v1ans := parseV1 (get kv "v1"),
+    paramsOk := getB kv "pok",
+    tok := { empty := getB kv "t.empty", wellFormed := getB kv "t.wf",
+             alg := if get kv "t.alg" == "-" then none else some (getS kv "t.alg"),
+             sigDecodes := getB kv "t.sigok",
+             iat := getTime kv "t.iat", nbf := getTime kv "t.nbf", exp := getTime kv "t.exp",
+             sub := getS kv "t.sub",
+             verifies := fun n => vf.contains n },
+    rnd := getS kv "rnd", tokenOk := getB ora "tokok",
+    burl := parseUrl kv "b." }
+
+def parseShape (s : String) : Option Shape :=
+  if s == "undecodable" then some .undecodable else if s == "invalid" then some .invalid
+  else if s == "valid" then some .valid else none
+
+def parseOp (verb : String) (kv ora : KV) : Option Op :=
+  if verb == "connect" then some (.connect (getN kv "c") (getS kv "addr"))
+  else if verb == "disconnect" then some (.disconnect (getN kv "c"))
+  else if verb == "hello" then some (.hello (getN kv "c") (parseHello kv ora))
+  else if verb == "msg" then (parseShape (get kv "shape")).map (fun sh => .msg (getN kv "c") (getS kv "ty") sh)
+  else if verb == "bye" then some (.bye (getN kv "c"))
+  else none
+
+/-! ### printing -/
+
+def showReply : Reply → String
+  | .welcome => "welcome"
+  | .hello sid b k u => s!"hello {sid} {enc b} {enc k} {enc u}"
+  | .error code => s!"error {enc code}"
+  | .bye => "bye"
+  | .done => "done"
+  | .ignored => "none"
+  | .closed => "closed"
+
+def showSess (s : Sess) : String :=
+  let c := match s.conn with
+    | some c => toString c
+    | none => "-"
+  s!"{s.sid}:{enc s.backend}:{enc s.kind}:{enc s.user}:{c}"
+
+def showSessions (ss : List Sess) : String :=
+  "S=" ++ (if ss.isEmpty then "-" else ",".intercalate (ss.map showSess))
+
+def showBackend (b : Backend) : String :=
+  s!"{enc b.id}|{enc b.url}|{if b.allowHttp then 1 else 0}|{b.limit}"
+
+def showCfg (cfg : Cfg) : String :=
+  let hosts := cfg.hosts.map (fun he => "h:" ++ enc he.1 ++ "=" ++ ";".intercalate (he.2.map showBackend))
+  let aa := match cfg.allowAll with
+    | some b => showBackend b
+    | none => "-"
+  joinToks (["cfg", s!"sec={if cfg.secretSet then 1 else 0}", "aa=" ++ aa] ++ hosts)
+
+/-! ### parsing the implementation's observation -/
+
+def parseReply : List String → Option Reply
+  | ["welcome"] => some .welcome
+  | ["hello", sid, b, k, u] => do
+    some (.hello (← toNat? sid) (← dec b) (← dec k) (← dec u))
+  | ["error", code] => (dec code).map .error
+  | ["bye"] => some .bye
+  | ["done"] => some .done
+  | ["none"] => some .ignored
+  | ["closed"] => some .closed
+  | _ => none
+
+def parseSess (s : String) : Option Sess :=
+  match s.splitOn ":" with
+  | [sid, b, k, u, c] => do
+    some { sid := (← toNat? sid), backend := (← dec b), kind := (← dec k), user := (← dec u), conn := toNat? c }
+  | _ => none
+
+def parseSessions (tok : String) : Option (List Sess) :=
+  if !hasPrefix "S=" tok then none
+  else
+    let body := dropS 2 tok
+    if body == "-" then some [] else (body.splitOn ",").mapM parseSess
+
+/-- `<reply…> ; S=… || k=v …` -/
+def splitImpl (impl : List String) : List String × List String × KV :=
+  let obs := impl.takeWhile (· ≠ "||")
+  let ora := (impl.dropWhile (· ≠ "||")).drop 1
+  (obs.takeWhile (· ≠ ";"), (obs.dropWhile (· ≠ ";")).drop 1, kvs ora)
 
 structure St where
-  dummy : Unit := ()
+  cfg : Cfg := {}
+  env : Env := {}
+  started : Bool := false
+  hub : Hub := {}
+  judge : Judge := {}
 
-def step (st : St) (_op _impl : List String) : St × String × String := (st, "bad-op", "na")
+def addBackend (hosts : List (String × List Backend)) (host : String) (b : Backend) : List (String × List Backend) :=
+  if (hosts.lookup host).isSome then hosts.map (fun he => if he.1 = host then (he.1, he.2 ++ [b]) else he)
+  else hosts ++ [(host, [b])]
+
+def now0 : Int := 0
+
+def step (st : St) (op impl : List String) : St × String × String :=
+  match op with
+  | [] => (st, "bad-op", "na")
+  | verb :: rest =>
+    let kv := kvs rest
+    if st.started && (verb == "cfg" || verb == "backend" || verb == "tenant") then (st, "bad-op", "na")
+    else if verb == "cfg" then
+      let aa : Option Backend := if getB kv "aa" then
+        some { id := "compat", url := "", allowHttp := getB kv "aa.http", limit := getN kv "aa.limit", owner := "*" } else none
+      ({ st with cfg := { st.cfg with secretSet := getB kv "sec", allowAll := aa } }, "ok", "na")
+    else if verb == "backend" then
+      let b : Backend := { id := getS kv "id", url := getS kv "url", allowHttp := getB kv "http",
+                           limit := getN kv "limit", owner := getS kv "owner" }
+      ({ st with cfg := { st.cfg with hosts := addBackend st.cfg.hosts (getS kv "host") b } }, "ok", "na")
+    else if verb == "tenant" then
+      let t : Tenant := { name := getS kv "name", key := parseKey (get kv "key"), fed := getB kv "fed" }
+      ({ st with env := { tenants := st.env.tenants ++ [t] } }, "ok", "na")
+    else if verb == "start" then
+      if st.started then (st, "bad-op", "na") else ({ st with started := true }, showCfg st.cfg, "na")
+    else if !st.started then (st, "bad-op", "na")
+    else
+      let (replyToks, sessToks, ora) := splitImpl impl
+      match parseOp verb kv ora with
+      | none => (st, "bad-op", "na")
+      | some o =>
+        let (h', r) := Auth.step st.cfg st.env now0 st.hub o
+        let out := showReply r ++ " ; " ++ showSessions h'.sessions
+        let (j', v) :=
+          match parseReply replyToks, sessToks with
+          | some ir, [s] =>
+            match parseSessions s with
+            | some ss => st.judge.observe st.cfg st.env now0 o { reply := ir, sessions := ss }
+            | none => (st.judge, "na")
+          | _, _ => (st.judge, "na")
+        ({ st with hub := h', judge := j' }, out, v)
 
 end SigModel.Driver.C01
